@@ -76,6 +76,8 @@ type World struct {
 	// Latency is the one-way delay of pumped links; set before engines start.
 	Latency time.Duration
 	Refused int
+	// OnEndpoint is called for every endpoint owned by an engine, before anything can use it.
+	OnEndpoint func(e *Endpoint)
 }
 
 func NewWorld() *World {
@@ -136,7 +138,11 @@ func (w *World) DriverDial(port int) (*Endpoint, error) {
 		return nil, errors.New("simnet: connection refused")
 	}
 	link := w.newLinkLocked(port, false)
+	hook := w.OnEndpoint
 	w.mu.Unlock()
+	if hook != nil {
+		hook(link.B)
+	}
 	select {
 	case l.ch <- link.B:
 	default:
@@ -159,7 +165,12 @@ func (w *World) dial(ctx context.Context, address string) (net.Conn, error) {
 	l, ok := w.listeners[port]
 	if ok && !l.closed {
 		link := w.newLinkLocked(port, true)
+		hook := w.OnEndpoint
 		w.mu.Unlock()
+		if hook != nil {
+			hook(link.A)
+			hook(link.B)
+		}
 		select {
 		case l.ch <- link.B:
 		default:
@@ -170,7 +181,11 @@ func (w *World) dial(ctx context.Context, address string) (net.Conn, error) {
 	// No listener: the driver plays the server and drives the engine's endpoint directly.
 	link := w.newLinkLocked(port, false)
 	w.dialled = append(w.dialled, link.A)
+	hook := w.OnEndpoint
 	w.mu.Unlock()
+	if hook != nil {
+		hook(link.A)
+	}
 	return link.A, nil
 }
 
@@ -268,6 +283,7 @@ type Endpoint struct {
 }
 
 func (e *Endpoint) Link() *Link                      { return e.link }
+func (e *Endpoint) Side() int                        { return e.side }
 func (e *Endpoint) Peer() *Endpoint                  { return e.peer }
 func (e *Endpoint) LocalAddr() net.Addr              { return e.local }
 func (e *Endpoint) RemoteAddr() net.Addr             { return e.remote }
